@@ -41,7 +41,7 @@ type advCase struct {
 	World     string `json:"world,omitempty"`    // normal | both | expired
 	Storage   string `json:"storage,omitempty"`  // inmem | ordered
 	Identity  string `json:"identity,omitempty"` // A (registered) | R (removed) | U (never registered)
-	Cert      string `json:"cert,omitempty"`     // cur | next | foreign | selfsigned | serverauth
+	Cert      string `json:"cert,omitempty"`     // cur | next | otherleaf | foreign | selfsigned | serverauth
 	HoldsKey  bool   `json:"holds_key"`
 	NonceSig  string `json:"nonce_sig,omitempty"` // self | other | unreg | missing
 	Skip      bool   `json:"skip_verification"`
@@ -240,6 +240,15 @@ func (w *advWorld) buildProduct(c advCase) (world.ClientSpec, advVerdict, bool) 
 		}
 		b := node.Creds.CertificateBundles[i]
 		chain = [][]byte{b.CertificateDer, b.CaCertificateDer}
+	case "otherleaf":
+		// the valid leaf (and key) of another registered node, while the request names this identity
+		i := 0
+		leafRoot = w.roots.Current
+		if !rootValidNow(w.roots.Current) {
+			i, leafRoot = 1, w.roots.Next
+		}
+		b := w.B.Creds.CertificateBundles[i]
+		chain = [][]byte{b.CertificateDer, b.CaCertificateDer}
 	case "foreign":
 		leaf := world.MintLeaf(w.foreign.cert, w.foreign.root.Priv, k.Pub, world.LeafSpec{SubjectKeyID: k.Pkix, CommonName: k.KeyID, DNSNames: []string{k.KeyID}, EKU: []x509.ExtKeyUsage{x509.ExtKeyUsageClientAuth}, NotBefore: now.Add(-time.Hour), NotAfter: now.Add(24 * time.Hour)})
 		chain = [][]byte{leaf, w.foreign.cert.Raw}
@@ -253,6 +262,11 @@ func (w *advWorld) buildProduct(c advCase) (world.ClientSpec, advVerdict, bool) 
 	}
 	var signer crypto.Signer = k.Priv
 	holds := c.HoldsKey && c.Cert != "serverauth" // nobody outside the server holds the key of a server-minted certificate
+	leafPub, leafRegistered := k.Pub, c.Identity == "A"
+	if c.Cert == "otherleaf" {
+		signer = w.B.K.Priv
+		leafPub, leafRegistered = w.B.K.Pub, true
+	}
 	if !c.HoldsKey {
 		signer = world.NewKeys().Priv
 	}
@@ -336,7 +350,8 @@ func (w *advWorld) buildProduct(c advCase) (world.ClientSpec, advVerdict, bool) 
 			// R's record was removed; U never had one
 		}
 	} else if c.Cert != "serverauth" {
-		recs = append(recs, recT{k.Pub, c.Identity == "A"})
+		// key-ID path: the record of the certificate key the peer proved possession of
+		recs = append(recs, recT{leafPub, leafRegistered})
 	}
 	for _, r := range recs {
 		if r.present && len(req.NonceSignature) > 0 && ed25519.Verify(r.pub, req.Nonce, req.NonceSignature) {
@@ -345,7 +360,7 @@ func (w *advWorld) buildProduct(c advCase) (world.ClientSpec, advVerdict, bool) 
 	}
 	v.mayAuth = v.n1 && v.n2 && v.sigOK && !c.FetchMode
 	v.why = fmt.Sprintf("possession=%v validroot=%v record+sig=%v", v.n1, v.n2, v.sigOK)
-	v.positive = v.mayAuth && c.Identity == "A" && c.NonceSig == "self" && !c.Skip && c.Pref == "valid" &&
+	v.positive = v.mayAuth && c.Identity == "A" && c.NonceSig == "self" && c.Cert != "otherleaf" && !c.Skip && c.Pref == "valid" &&
 		(c.StateSig == "none" || c.StateSig == "valid") && c.CN == "" && (c.Hint == "none" || (c.Hint == "match"))
 	return world.ClientSpec{Protos: protos, Chain: chain, Signer: signer}, v, true
 }
@@ -728,7 +743,7 @@ func runTLSAdv(c *engine.Ctx) engine.Result {
 	for _, wn := range []string{"normal", "both", "expired"} {
 		for _, st := range []string{world.Inmem, world.Ordered} {
 			for _, id := range []string{"A", "R", "U"} {
-				for _, cert := range []string{"cur", "next", "foreign", "selfsigned", "serverauth"} {
+				for _, cert := range []string{"cur", "next", "otherleaf", "foreign", "selfsigned", "serverauth"} {
 					if id == "U" && (cert == "cur" || cert == "next") {
 						continue
 					}
